@@ -32,12 +32,12 @@ pub fn run_sc_check(id: &str, tier: &str, seed: u64) -> i32 {
     let t0 = std::time::Instant::now();
     let judge = sc::Judge::only(id);
     let (n, max_plies): (u64, usize) = match (id, tier) {
-        ("C13", "quick") => (6_000, 50),
-        ("C13", _) => (80_000, 60),
-        ("C04", "quick") => (12_000, 60),
-        ("C04", _) => (150_000, 200),
-        (_, "quick") => (16_000, 60),
-        (_, _) => (250_000, 80),
+        ("C13", "quick") => (8_000, 50),
+        ("C13", _) => (120_000, 60),
+        ("C04", "quick") => (40_000, 60),
+        ("C04", _) => (600_000, 200),
+        (_, "quick") => (40_000, 60),
+        (_, _) => (600_000, 80),
     };
     let mut acc = report::par_acc(n, |r| {
         let z = ZobristHasher::create_zobrist_hasher();
@@ -45,7 +45,7 @@ pub fn run_sc_check(id: &str, tier: &str, seed: u64) -> i32 {
     });
     if id == "C04" || id == "C05" {
         // the same clause observed through the real command loop (H4 probes after position / go)
-        let ns: u64 = if tier == "quick" { 3_000 } else { 60_000 };
+        let ns: u64 = if tier == "quick" { 8_000 } else { 200_000 };
         acc.merge(report::par_acc(ns, |r| sa_checks::run_probe_session(seed, r, id)));
     }
     let z = ZobristHasher::create_zobrist_hasher();
@@ -94,8 +94,8 @@ pub fn run_sa_check(id: &str, tier: &str, seed: u64) -> i32 {
         _ => {}
     }
     let n: u64 = match tier {
-        "quick" => 6_000,
-        _ => 120_000,
+        "quick" => 12_000,
+        _ => 400_000,
     };
     // fault-free configuration (strict oracle) and fault-injecting configuration, separately
     let mut acc = report::par_acc(n / 3, |r| sa_checks::run_one(seed, r, &format!("{}-clean", id), j, false));
@@ -137,10 +137,10 @@ pub fn run_sa_check(id: &str, tier: &str, seed: u64) -> i32 {
 pub fn run_meta_check(id: &str, tier: &str, seed: u64) -> i32 {
     let t0 = std::time::Instant::now();
     let n: u64 = match (id, tier) {
-        ("C17", "quick") => 1_200,
-        ("C17", _) => 25_000,
-        (_, "quick") => 4_000,
-        (_, _) => 80_000,
+        ("C17", "quick") => 2_000,
+        ("C17", _) => 60_000,
+        (_, "quick") => 8_000,
+        (_, _) => 250_000,
     };
     let mut acc = match id {
         "C17" => report::par_acc(n, |r| sa_meta::run_c17(seed, r)),
@@ -188,7 +188,7 @@ pub fn run_sb_check(id: &str, tier: &str, seed: u64) -> i32 {
     let (mut acc, runs): (Acc, u64) = match id {
         "C07" | "C18" => {
             // most positions at D = 2 (cheap, exhaustive), some at D = 3 (D = 4 in thorough: null move active)
-            let (n2, n3, n4) = if quick { (160, 40, 0) } else { (2_400, 600, 60) };
+            let (n2, n3, n4) = if quick { (240, 60, 0) } else { (8_000, 2_000, 200) };
             let (c07, c18) = (id == "C07", id == "C18");
             let mut a = report::par_acc(n2, |r| sb_checks::run_c07_c18(seed, r, &format!("{}-d2", id), c07, c18, 2, 1500));
             a.merge(report::par_acc(n3, |r| sb_checks::run_c07_c18(seed, r, &format!("{}-d3", id), c07, c18, 3, 1500)));
@@ -197,13 +197,13 @@ pub fn run_sb_check(id: &str, tier: &str, seed: u64) -> i32 {
             }
             if c18 {
                 // stream view over whole sessions (what a GUI sees between go and bestmove)
-                let ns = if quick { 2_500 } else { 50_000 };
+                let ns = if quick { 4_000 } else { 150_000 };
                 a.merge(report::par_acc(ns, |r| sa_checks::run_c18_session(seed, r)));
             }
             (a, n2 + n3 + n4)
         }
         "C12" => {
-            let n = if quick { 500 } else { 10_000 };
+            let n = if quick { 700 } else { 20_000 };
             let a = report::par_acc(n, |r| sb_checks::run_c12(seed, r));
             // coverage guard: the property is only decided where the engine completes the depth
             let d3 = a.counters.get("c12_depth_3_judged").copied().unwrap_or(0);
@@ -214,7 +214,7 @@ pub fn run_sb_check(id: &str, tier: &str, seed: u64) -> i32 {
             (a, n)
         }
         "C11" => {
-            let n = if quick { 40_000 } else { 600_000 };
+            let n = if quick { 100_000 } else { 3_000_000 };
             let bound = 3;
             (report::par_acc(n, |r| sb_checks::run_c11(seed, r, bound)), n)
         }
@@ -255,8 +255,8 @@ pub fn run_c10(tier: &str, seed: u64) -> i32 {
     let t0 = std::time::Instant::now();
     let quick = tier == "quick";
     let judge = sc::Judge::only("C10");
-    let n1: u64 = if quick { 8_000 } else { 150_000 };
-    let n2: u64 = if quick { 1_200 } else { 25_000 };
+    let n1: u64 = if quick { 20_000 } else { 600_000 };
+    let n2: u64 = if quick { 6_000 } else { 150_000 };
     let mut acc = report::par_acc(n1, |r| {
         let z = ZobristHasher::create_zobrist_hasher();
         sc::run(seed, r, "C10", judge, &z, 60)
@@ -264,7 +264,7 @@ pub fn run_c10(tier: &str, seed: u64) -> i32 {
     let rec_evals = acc.evals;
     acc.merge(report::par_acc(n2, |r| sb_checks::run_c10_search(seed, r)));
     // (i) again, through the real command loop: several position commands in one session
-    let n3: u64 = if quick { 3_000 } else { 60_000 };
+    let n3: u64 = if quick { 8_000 } else { 250_000 };
     acc.merge(report::par_acc(n3, |r| sa_checks::run_c10_session(seed, r)));
     let z = ZobristHasher::create_zobrist_hasher();
     minimise_all(&mut acc, |v| if v.scenario["family"] == "SC" { sc::minimise(v, &z) } else { v.clone() });
@@ -285,13 +285,21 @@ pub fn run_c10(tier: &str, seed: u64) -> i32 {
 
 pub fn run_c15(tier: &str, seed: u64) -> i32 {
     let t0 = std::time::Instant::now();
-    let n: u64 = if tier == "quick" { 12_000 } else { 250_000 };
-    let parts = report::par_runs(n, report::workers(), |r| crate::c15::run(seed, r));
+    let n: u64 = if tier == "quick" { 40_000 } else { 1_500_000 };
     let mut acc = Acc::new();
     let mut cli = vec![];
-    for (a, c) in parts {
-        acc.merge(a);
-        cli.extend(c);
+    let mut base = 0u64;
+    while base < n {
+        // chunks bound the memory held between merges
+        let m = 4096.min(n - base);
+        let parts = report::par_runs(m, report::workers(), |r| crate::c15::run(seed, base + r));
+        for (a, c) in parts {
+            acc.merge(a);
+            if cli.len() < 4000 {
+                cli.extend(c);
+            }
+        }
+        base += m;
     }
     let z = ZobristHasher::create_zobrist_hasher();
     crate::c15::systematic(&mut acc, &z);
